@@ -12,7 +12,8 @@ PROP = {'kani_groups': ['hk_batcher'],
  'bounds': 'capacity 1..=3, pending <= capacity; sender steps: <= 1 (thorough 2) watchers of each kind registered; '
            'send_or_wait: <= 2 wait rounds, state arbitrarily replaced during each wait; receiver iteration: 0..=2 '
            '(thorough 3) pending items, 1 (thorough 0..2) watchers of each kind, retry budget 0/1 (thorough 2) '
-           'instead of 10, processor outcome per attempt in {Ok, Err no-retry, Err retry(any remainder of <= 2 (3) '
+           'instead of 10, ARBITRARY receiver history (retry counter 0..=budget+1, retry back-off <= 10 s, idle back-off <= 500 ms) ' 
+           'left by earlier batches, processor outcome per attempt in {Ok, Err no-retry, Err retry(any remainder of <= 2 (3) '
            'items incl. empty)}, panic plan over all guarded calls; Capacity: any 32-entry history',
  'outside': 'CANNOT BE ENCODED (Kani executes one thread, no OS): batcher/src/tokio.rs and web.rs entirely; the '
             'blocking wrappers of batcher/src/sync.rs (Trigger/condvar wait_timeout, Instant, thread spawn/join, its '
